@@ -177,6 +177,7 @@ def main(argv=None):
     reg = load_contracts()
     from pyvc import ground
     import bounded.strings  # noqa: F401  (registers the bounded stand-ins)
+    import bounded.frames   # noqa: F401
     quals = [q for q, c in reg.contracts.items() if pid in c.serves and not c.external]
     if os.environ.get('PYVC_ONLY'):      # debugging aid: restrict the run to some functions (never used by registered commands)
         quals = [q for q in quals if any(q.endswith(x) for x in os.environ['PYVC_ONLY'].split(','))]
@@ -287,7 +288,7 @@ def main(argv=None):
             res = dict(found=True, input=o['model'], note='witness of the exhaustive enumeration, evaluated on the real function')
             json.dump(dict(property=pid, obligation=o['name'], verdict='refuted', checker=o.get('backend'), replay=res), open(path, 'w'), indent=1, default=str)
         else:
-            path, res = run_replay(pid, o)
+            path, res = run_replay(pid, o, extra=dict(known_ids=[f['id'] for f in kfs]))
         rel = os.path.relpath(path, VERIF)
         tail = '' if res.get('found') else ' no-failing-input-found'
         violations.append((o, rel, res))
